@@ -398,7 +398,7 @@ impl Prop for C16 {
     fn runs(&self, tier: Tier) -> u64 {
         match tier {
             Tier::Quick => 40_000,
-            Tier::Thorough => 400_000,
+            Tier::Thorough => 600_000,
         }
     }
     fn gen(&self, rng: &mut Rng, tier: Tier, _idx: u64) -> Case {
